@@ -131,6 +131,29 @@ func (m *MemDb) VerifDump() *VerifDumpT {
 			share(reflect.ValueOf(v).Pointer(), e.k)
 		}
 	}
+	// string values that share backing memory (one array reachable through two keys): not a defect in
+	// itself - immutable shared values are fine - but hidden state: a write in place through one key
+	// shows through the other.  It goes into Hidden, so that the explicit-state search keeps "a and b
+	// share memory" apart from the otherwise equal state in which they do not.
+	type span struct {
+		key    string
+		lo, hi uintptr
+	}
+	var spans []span
+	for _, e := range all {
+		if b, ok := e.v.([]byte); ok && cap(b) > 0 {
+			lo := reflect.ValueOf(b[:cap(b)]).Pointer()
+			spans = append(spans, span{e.k, lo, lo + uintptr(cap(b))})
+		}
+	}
+	sharesWith := map[string][]string{}
+	for i := range spans {
+		for j := range spans {
+			if i != j && spans[i].lo < spans[j].hi && spans[j].lo < spans[i].hi {
+				sharesWith[spans[i].key] = append(sharesWith[spans[i].key], spans[j].key)
+			}
+		}
+	}
 	present := map[string]bool{}
 	for _, e := range all {
 		present[e.k] = true
@@ -189,6 +212,10 @@ func (m *MemDb) VerifDump() *VerifDumpT {
 		// fingerprint of the whole object graph, so that a read-only command that changes hidden
 		// state leads to a new state of the search instead of being merged away
 		vk.Hidden += "|" + verifDeep(e.v)
+		if sw := sharesWith[e.k]; len(sw) > 0 {
+			sort.Strings(sw)
+			vk.Hidden += "|shares-memory-with:" + fmt.Sprint(sw)
+		}
 		d.Keys = append(d.Keys, vk)
 	}
 	for k := range ttl {
